@@ -22,7 +22,7 @@ type c07Case struct {
 	Special string   `json:"special,omitempty"`
 }
 
-var c07Items = []string{"T", "PA", "PO", "IFA", "SD", "SN", "SM", "T2"}
+var c07Items = []string{"T", "PA", "PO", "IFA", "SD", "SN", "SM", "T2", "IFSD", "EACHSN", "ELSESM", "ELIFSD"}
 
 func c07XNodes(items []int) (nodes []*Node, slots []string) {
 	for pos, ix := range items {
@@ -45,6 +45,18 @@ func c07XNodes(items []int) (nodes []*Node, slots []string) {
 			slots = append(slots, "n")
 		case "SM":
 			nodes = append(nodes, &Node{K: "slot", Name: "m"})
+			slots = append(slots, "m")
+		case "IFSD": // placeholders nested in the component's own blocks
+			nodes = append(nodes, &Node{K: "if", E: eVar("o"), Body: []*Node{nText("("), {K: "slot", Name: ""}, nText(")")}})
+			slots = append(slots, "")
+		case "ELIFSD":
+			nodes = append(nodes, &Node{K: "if", E: eLit(vBool(false)), Body: []*Node{nText("no")}, ElseIfs: []ElseIf{{Cond: eVar("o"), Body: []*Node{nText("(ei"), {K: "slot", Name: ""}, nText(")")}}}})
+			slots = append(slots, "")
+		case "EACHSN":
+			nodes = append(nodes, &Node{K: "each", Name: "q", E: &Expr{Op: "arr", Kids: []*Expr{eLit(vInt(1)), eLit(vInt(2))}}, Body: []*Node{nText("<"), {K: "slot", Name: "n"}, nText(">")}})
+			slots = append(slots, "n")
+		case "ELSESM":
+			nodes = append(nodes, &Node{K: "if", E: eLit(vBool(false)), Body: []*Node{nText("no")}, HasElse: true, Else: []*Node{nText("{"), {K: "slot", Name: "m"}, nText("}")}})
 			slots = append(slots, "m")
 		}
 	}
@@ -296,6 +308,14 @@ func c07Run(c *Ctx) {
 		seen := map[string]bool{}
 		for _, ix := range idx {
 			it := c07Items[ix]
+			switch it {
+			case "IFSD", "ELIFSD":
+				it = "SD"
+			case "EACHSN":
+				it = "SN"
+			case "ELSESM":
+				it = "SM"
+			}
 			if it == "SD" || it == "SN" || it == "SM" {
 				if seen[it] {
 					return false
@@ -386,7 +406,7 @@ func init() {
 	p := &Property{
 		ID:    "C07",
 		Level: "exploration",
-		Rule: "bounded-exhaustive template trees on disk: every component file that is a sequence of <=k items from {text, {{ a }}, {{ o }} (outer variable), @if(a)…@else…@end, @slot, @slot(\"n\"), @slot(\"m\")} with distinct slots; pages with one, two and three uses — the same component used repeatedly with different argument variants (none, literal, data variable, loop variable / concatenation, shadowing an outer variable with the same and with a different type, falsy) and slot variants (none, all declared, first only, last only, bodies unique per use), a second component addressed through ~, placed at top level, inside @if, inside @each, inside an insert of a layout page and inside another component's slot body; plus undeclared / duplicate slots and missing component files. " +
+		Rule: "bounded-exhaustive template trees on disk: every component file that is a sequence of <=k items from {text, {{ a }}, {{ o }} (outer variable), @if(a)…@else…@end, @slot, @slot(\"n\"), @slot(\"m\"), and the same placeholders nested inside @if / @each / @else blocks of the component} with distinct slots; pages with one, two and three uses — the same component used repeatedly with different argument variants (none, literal, data variable, loop variable / concatenation, shadowing an outer variable with the same and with a different type, falsy) and slot variants (none, all declared, first only, last only, bodies unique per use), a second component addressed through ~, placed at top level, inside @if, inside @each, inside an insert of a layout page and inside another component's slot body; plus undeclared / duplicate slots and missing component files. " +
 			"Reference: RefTW; every use carries unique markers, so cross-talk between uses is visible. Non-trivial: the page uses the same component at least twice, or is a fault case",
 		Bounds: func(tier string) map[string]any {
 			if tier == "thorough" {
@@ -394,7 +414,7 @@ func init() {
 			}
 			return map[string]any{"component_items_single_use": 3, "component_items_multi_use": 2, "max_uses": 3}
 		},
-		Assume: []string{"slot bodies use only text and data-map variables; component files do not use components themselves; slots are declared at the top level of the component file"},
+		Assume: []string{"slot bodies use only text and data-map variables; component files do not use components themselves"},
 		Run:    c07Run,
 	}
 	registerTyped(p, c07Check)
